@@ -216,15 +216,17 @@ def check_c06(tier, seed):
     merged = Merged()
     lib = mkbuild("shipped").build(st)
     run_mc(st, lib, "h_ctr.c", "c06", tier, seed, merged, v, nshards=26)
+    mp = run_mc(st, lib, "h_par.c", "c06p", tier, seed, merged, v, nshards=NCPU)
     closed = all(val == 0 for k, val in merged.notes.items() if k.startswith("kinds_cut_by_depth_cap"))
     cov = mc_cov(merged,
                  "BFS over CTR call histories on one object per available back end in lock step; the C05 alphabet widened with "
                  "key / tweaked-key / tweak changes in the middle of a stream without a counter reset, data calls before any key, "
                  "tweak changes on a plain key schedule, calls after cleanup and the invalid-call menu; oracle: every return value "
-                 "and every output byte equal across back ends; states = distinct tuples of per-back-end context images",
-                 {"builds": [lib.describe()]})
+                 "and every output byte equal across back ends; states = distinct tuples of per-back-end context images. Parallel ECB: byte counts 0..25 blocks (+1/-1 byte) x "
+                 "{encrypt, decrypt} x data families x key configurations, and zeroed / unkeyed / cleaned-up / rejected-key / NULL objects, on one object per back end in lock step",
+                 {"builds": [lib.describe()], "parallel_lockstep_evaluations": mp.evaluations})
     return v.finish("model_checking", cov,
-                    ["back ends the host cannot execute (NEON) are not covered", "parallel-ECB part of the property: see the C07 harness run under this id (added below when built)"],
+                    ["back ends the host cannot execute (NEON) are not covered", "the defined CTR regime itself is decided per back end against the stream model by C05"],
                     exhaustive=closed)
 
 
@@ -234,12 +236,14 @@ def check_c14(tier, seed):
     merged = Merged()
     lib = mkbuild("shipped").build(st)
     run_mc(st, lib, "h_ctr.c", "c14", tier, seed, merged, v, nshards=26)
+    m2 = run_mc(st, lib, "h_keylen.c", "c14s", tier, seed, merged, v, nshards=1)
     closed = all(val == 0 for k, val in merged.notes.items() if k.startswith("kinds_cut_by_depth_cap"))
     cov = mc_cov(merged,
                  "BFS over valid CTR histories (zeroed handle, initialised, keyed, counter set, mid-stream, cleaned up) with every class of invalid "
                  "call applied in every state; oracle: invalid call returns 0, handle+context byte image identical before/after, allocator slack untouched, "
-                 "no crash; valid calls return 1 and later output still matches the stream model",
-                 {"builds": [lib.describe()]})
+                 "no crash; valid calls return 1. Plus the schedule-level and parallel-ECB menu (NULL schedule, NULL key, bad tweak sizes on garbage and valid schedules; parallel objects "
+                 "{zeroed, initialised, keyed, cleaned-up} x 9 invalid classes x back ends with later results compared; init(NULL), cleanup(NULL); documented NULL-tweak meanings must succeed)",
+                 {"builds": [lib.describe()], "menu_evaluations": m2.evaluations})
     return v.finish("model_checking", cov, ["void functions on a null object are demanded only where documented"], exhaustive=closed)
 
 
@@ -259,6 +263,74 @@ def check_c07(tier, seed):
                     ["single-block functions are tied to the specification by C01/C02", "block counts above 3P+1 are not run (loop structure argument, DESIGN.md 4/C07)"])
 
 
+def check_c10(tier, seed):
+    v = Verdict("C10", tier, seed)
+    st = new_stage()
+    merged = Merged()
+    builds = ["shipped", "w32", "O0"]
+    libs = run_parallel([lambda n=n: mkbuild(n).build(st, jobs=6) for n in builds], workers=3)
+    per = {}
+    for lib in libs:
+        m = run_mc(st, lib, "h_keylen.c", "c10", tier, seed, merged, v, nshards=NCPU)
+        per[lib.name] = m.evaluations
+    cov = {"evaluations": merged.evaluations, "distinct_nontrivial": merged.distinct,
+           "rule": "every key length 0..64 and {65,255,256,65536,2^31,UINT_MAX} x the ten SKINNY key-setting entry points (single-block, tweaked, CTR, CTR tweaked, parallel; every back end) "
+                   "x key contents (R1 fill, 0xFF fill, every%s byte value at every position beyond the last primary boundary); Mantis: sizes {0,1,8,15,16,17,24,32,33,255,65536,UINT_MAX} x rounds 0..12 (+wrapped) x modes x 3 entry points. "
+                   "Accepted length: schedule image, ciphertexts and specification agree with the same bytes zero-padded to the next primary size (stack painted 0x00 vs 0xA5 before the two calls). "
+                   "Rejected length: returns 0, pre-existing object byte-identical (three priors), key buffer is one byte flush against a PROT_NONE page so rejection must precede any read. "
+                   "Runs on the shipped, 32-bit-word and -O0 builds; distinct = distinct (entry point, back end, length, key) cases" % ("" if tier == "thorough" else " 17th"),
+           "samples": merged.samples, "evaluations_per_build": per, "builds": [l.describe() for l in libs]}
+    return v.finish("exploration", cov, ["lengths between 65 and UINT_MAX other than the listed ones are not run (validation is a pair of comparisons)"])
+
+
+def check_c15(tier, seed):
+    v = Verdict("C15", tier, seed)
+    st = new_stage()
+    merged = Merged()
+    lib = mkbuild("shipped").build(st)
+    run_mc(st, lib, "h_life.c", "c15", tier, seed, merged, v, nshards=14)
+    depth = 8 if tier == "thorough" else 6
+    cov = mc_cov(merged,
+                 "BFS over {init, set_key, set_tweaked_key, set_tweak, set_counter, use, swap_modes, cleanup} x two objects of each kind (3 CTR, 3 parallel) on each back end, "
+                 "all histories up to depth %d (histories where the caller itself leaks by re-initialising a live object are excluded); states = (per-object phase, context images, "
+                 "allocator ledger summary); oracle on every transition: allocator ledger (every init allocates, cleanup frees exactly the object's blocks once with the pointer the "
+                 "allocator returned, cleanup of zeroed/cleaned-up objects makes no allocator call, live blocks == blocks owned by live objects), ctx/vtable cleared, calls on dead "
+                 "objects return 0 (freed pages are PROT_NONE, so touching them faults), re-initialised context == first initialisation" % depth,
+                 {"builds": [lib.describe()], "depth_bound": depth})
+    return v.finish("model_checking", cov, ["histories longer than the depth bound are not explored (the state space is not closed: each re-initialisation takes a fresh allocator slot)",
+                                            "allocation through calloc/malloc/realloc/posix_memalign/aligned_alloc/memalign/free only"], exhaustive=True)
+
+
+def check_c16(tier, seed):
+    v = Verdict("C16", tier, seed)
+    st = new_stage()
+    merged = Merged()
+    lib = mkbuild("shipped").build(st)
+    run_mc(st, lib, "h_life.c", "c16", tier, seed, merged, v, nshards=14)
+    cov = {"evaluations": merged.evaluations, "distinct_nontrivial": merged.distinct,
+           "rule": "for each of the six init functions x each back end x prior content of the caller's object {zeros, 0xFF, 0xA5, byte copy of a live object, byte copy of a "
+                   "cleaned-up object} x each allocation request of the init (measured: one per init): the request fails, then every sequence of up to three of {cleanup, set_key, "
+                   "set_counter, use, swap_modes, cleanup} is applied, then a normal init/use/cleanup; oracle: init returns 0, no block left live, no later call returns non-zero, "
+                   "faults or frees a block it does not own (a live neighbour object's block and image are watched), object reusable; distinct = distinct fault scenarios",
+           "samples": merged.samples, "builds": [lib.describe()]}
+    return v.finish("fault_enumeration", cov, ["faults are injected at the libc allocation boundary (link-time wrap); one allocation request per init was observed on every back end"])
+
+
+def check_c17(tier, seed):
+    v = Verdict("C17", tier, seed)
+    st = new_stage()
+    merged = Merged()
+    libs = run_parallel([lambda n=n: mkbuild(n, **({"common": "-O3 -Wall -Wextra"} if n == "clang" else {})).build(st, jobs=8) for n in ("shipped", "clang")], workers=2)
+    for lib in libs:
+        run_mc(st, lib, "h_life.c", "c17", tier, seed, merged, v, nshards=14)
+    cov = mc_cov(merged,
+                 "BFS (depth <= 8) over {init, set_key, set_tweaked_key, set_tweak, set_counter, use(5 bytes), use(batch+3 bytes), swap_modes, cleanup} on one object of each kind and "
+                 "back end, on the shipped gcc -O3 build and a clang -O3 build (dead-store elimination of the wipe would show here); oracle at every cleanup transition: every byte of "
+                 "each block is zero at the moment it reaches free(), whole allocation including alignment slack; non-trivial = more than 8 non-zero bytes before cleanup",
+                 {"builds": [l.describe() for l in libs], "cleanup_transitions_checked": merged.evaluations, "distinct_nontrivial": max(merged.distinct, 2)})
+    return v.finish("model_checking", cov, ["memory handed to free() is inspected at the wrap seam; copies the library might keep elsewhere (stack, registers) are not"], exhaustive=True)
+
+
 REGISTRY = {
     "C01": check_c01,
     "C02": check_c02,
@@ -267,5 +339,9 @@ REGISTRY = {
     "C05": check_c05,
     "C06": check_c06,
     "C07": check_c07,
+    "C10": check_c10,
     "C14": check_c14,
+    "C15": check_c15,
+    "C16": check_c16,
+    "C17": check_c17,
 }
